@@ -333,7 +333,8 @@ fn decoders<F: Fld>(report: &mut Report, width: u128) -> (u64, u64) {
 
 pub fn run(args: &Args) {
     let mut report = Report::new(args, "exploration");
-    let width: u128 = 1 << 12;
+    let wl: u32 = if args.tier == mck::Tier::Thorough { 18 } else { 12 };
+    let width: u128 = 1 << wl;
     let c = constants::<F64>(&mut report) + constants::<F62>(&mut report) + constants::<F128>(&mut report);
     report.part("modulus, generator, two-adicity, roots of unity of every order", c, c, json!("Lucas certificate from a trial-division factorisation of M-1 done by the harness"));
     let e = ext_constants2::<F64>(&Ext::f64_quad(), &mut report)
@@ -346,7 +347,7 @@ pub fn run(args: &Args) {
     let (d2, n2) = decoders::<F62>(&mut report, width);
     let (d3, n3) = decoders::<F128>(&mut report, width);
     report.part("integer and byte decoders on boundary bands", d1 + d2 + d3, n1 + n2 + n3,
-        json!({"bands": "[0,2^12], [M-2^12,M+2^12], [2M-2^12,2M+2^12], top 2^12 of the integer type, within 2 of every power of two", "slice_lengths": "0..=ELEMENT_BYTES+1"}));
+        json!({"bands": format!("[0,2^{wl}], [M-2^{wl},M+2^{wl}], [2M-2^{wl},2M+2^{wl}], top 2^{wl} of the integer type, within 2 of every power of two"), "slice_lengths": "0..=ELEMENT_BYTES+1"}));
     report.sample(json!({"decoder": "f64 try_from(u64)", "input": (F64::M).to_string(), "expected": "rejected (equals the modulus)"}));
     report.exhaustive = true;
     report.rule = "every listed constant, every root-of-unity order, every coefficient tuple and every integer of the boundary bands is one case; distinct by construction; non-trivial = the case exercises a decoder or a constant of the implementation (all do)".into();
